@@ -140,6 +140,17 @@ def run_unit(unit, tier, canary=False):
     wd = os.path.join(WORK, 'v', '%s.%d' % (unit, os.getpid()))
     try:
         r = verus.run(u.text(), wd, unit)
+        # D45: Verus refuses `continue` in a for body; retry with the flag rewrite (stated in DESIGN section 4) before giving up
+        uncont = False
+        if r.hard_errors and all('for-loops do not yet support continue' in h[0] for h in r.hard_errors):
+            try:
+                u2 = asm.assemble(unit, auto_uncontinue=True)
+                u, uncont = u2, True
+                info['u'] = u
+                info['auto_uncontinue'] = True
+                r = verus.run(u.text(), wd, unit)
+            except (ExtractError, OSError):
+                pass
         # a constant that the extracted code now refers to (and the template does not list) is taken from the same source files
         for _ in range(3):
             missing = [re.search(r'cannot find value `(\w+)`', h[0]) for h in r.hard_errors]
@@ -160,7 +171,7 @@ def run_unit(unit, tier, canary=False):
             if len(takes) != len(names):
                 break
             try:
-                u2 = asm.assemble(unit, extra_takes=tuple(takes) + tuple(info.get('auto_consts', ())))
+                u2 = asm.assemble(unit, extra_takes=tuple(takes) + tuple(info.get('auto_consts', ())), auto_uncontinue=uncont)
             except (ExtractError, OSError):
                 break
             info['auto_consts'] = tuple(takes) + tuple(info.get('auto_consts', ()))
